@@ -15,6 +15,23 @@ pub fn parse_iers_reference(bytes: &[u8]) -> Result<Vec<Entry>, String> {
     for (ln, raw) in bytes.split(|&b| b == b'\n').enumerate() {
         let line = raw.strip_suffix(b"\r").unwrap_or(raw);
         // Blanks are not significant: neither in front of a data line or a comment, nor alone.
+        // Where the line is valid UTF-8, any Unicode white space counts as a blank.
+        let owned: Vec<u8>;
+        let line: &[u8] = match std::str::from_utf8(line) {
+            Ok(s) if !s.is_ascii() => {
+                let mut o = String::with_capacity(s.len());
+                let mut in_comment = false;
+                for c in s.chars() {
+                    if c == '#' {
+                        in_comment = true;
+                    }
+                    o.push(if !in_comment && c.is_whitespace() { ' ' } else { c });
+                }
+                owned = o.into_bytes();
+                &owned
+            }
+            _ => line,
+        };
         let start = line.iter().position(|&b| b != b' ' && b != b'\t').unwrap_or(line.len());
         let line = &line[start..];
         if line.is_empty() || line[0] == b'#' {
